@@ -9,7 +9,7 @@ from .. import impl, netstub
 from ..harness import Prop, Result
 from ..gen import worlds as GW
 
-DOCS = ["http://ex.test/d0.json", "http://ex.test/d1.json", "http://ex.test/dir/d2.json"]
+DOCS = ["http://ex.test/d0.json", "http://ex.test/D0.json", "http://ex.test/dir/d2.json", "http://ex.test/d1.json"]
 META = {3: "http://json-schema.org/draft-03/schema", 4: "http://json-schema.org/draft-04/schema",
         6: "http://json-schema.org/draft-06/schema", 7: "http://json-schema.org/draft-07/schema"}
 META_FRAGS = ["", "#", "#/properties/type", "#/definitions/positiveInteger", "#/definitions/nonNegativeInteger",
@@ -28,7 +28,7 @@ leaf = GW.leaf
 @st.composite
 def cases(draw):
     d = draw(st.sampled_from(impl.DRAFTS))
-    n = draw(st.integers(1, 3))
+    n = draw(st.integers(1, 4))
     docs, behaviour = {}, {}
     for u in DOCS[:n]:
         docs[u] = {"definitions": {"a": draw(leaf), "b": draw(leaf), "x/y": draw(leaf)}}
